@@ -77,6 +77,24 @@ pub open spec fn StateHD_new_virial__L_Dual3_L_Dual3_RArr(t: L_Dual3, rho: L_Dua
 //@lift feos-core/src/equation_of_state/residual.rs trait:Residual::third_virial_coefficient_temperature_derivative ret=Result<real,LErr>
 //@end
 
+// ---- the virial state itself (generic code, lifted with D := real): V = 1, rho_i = x_i rho, N_i = rho_i V, mole fractions x
+//@ltype D => real
+//@lstruct feos-core/src/state/mod.rs StateHD
+pub open spec fn D_one() -> real { 1real }
+//@ldeclare D_one() -> real
+//@lift feos-core/src/state/mod.rs StateHD::new_virial
+//@end
+pub proof fn contract_c13_1_virial_state(t: real, rho: real, x: RArr, i: int)
+    ensures ({
+        let s = new_virial(t, rho, x);
+        &&& s.temperature == t && s.volume == 1real
+        &&& s.partial_density.len == x.len && s.moles.len == x.len && s.molefracs.len == x.len
+        &&& (s.partial_density.at)(i) == rho * (x.at)(i)
+        &&& (s.moles.at)(i) == (s.partial_density.at)(i) * s.volume
+        &&& (s.molefracs.at)(i) == (x.at)(i)
+    })
+{}
+
 // ---- A1 for the virial evaluations: a(T, rho, x) = A_res / (V k T) at V = 1 is ONE function of the model; evaluated on a
 // state whose density is seeded in the slots below (and nothing else), the dual parts of the result are its partial
 // derivatives at the real parts (exact automatic differentiation: num-dual, and every model's generic code)
